@@ -138,6 +138,7 @@ func c15Sig(v *c15Vec) map[string]interface{} {
 // The target file (if any) is stored where the *vector* says the canonical path is.
 func c15Run(v *c15Vec) (obs []callRec, herr string) {
 	rec := &recorder{}
+	badName := ""
 	mem := jet.NewInMemLoader()
 	name := spell(v.Abs, v.Segs)
 	canon := "/" + strings.Join(v.Canon, "/")
@@ -191,7 +192,11 @@ func c15Run(v *c15Vec) (obs []callRec, herr string) {
 		set.GetTemplate(ref)
 	case "ParseExtends":
 		// an unclean spelling of the referrer's own name: Parse must clean it
-		set.Parse("x/../"+strings.TrimPrefix(refDir(v.Depth), "/")+"./zref.jet", "{{extends "+q+"}}")
+		// (it also climbs above the root: no spelling resolves above it)
+		t, _ := set.Parse("../x/../"+strings.TrimPrefix(refDir(v.Depth), "/")+"./zref.jet", "{{extends "+q+"}}")
+		if t != nil && t.Name != refDir(v.Depth)+"zref.jet" {
+			badName = t.Name
+		}
 	default:
 		src := ""
 		switch v.Entry {
@@ -223,6 +228,9 @@ func c15Run(v *c15Vec) (obs []callRec, herr string) {
 			continue
 		}
 		obs = append(obs, c)
+	}
+	if badName != "" {
+		obs = append(obs, callRec{"Template.Name", badName})
 	}
 	return obs, ""
 }
